@@ -2087,6 +2087,25 @@ def dispatch_domain_items(rng, n) -> List[Item]:
     return items
 
 
+def lazy_map_items(rng, n) -> List[Item]:
+    """a `Map` (also `.values`-style consumers) produces its pairs lazily: asking for none of them, or for the first k,
+    runs the mapped body exactly that many times, in order — never the bodies of pairs nobody asked for.  (Oracle only:
+    the model's Map is the full list.)"""
+    items = []
+    for i in range(n):
+        P = Prog()
+        d = P.dataset([("a", P.option("A")), ("b", P.option("B", dflt=P.value(0)))], cache=P.new_cache("nocache"))
+        body = P.node(P.node(P.ovs[-1]["dflt"])["f"])["v"]["f"]
+        its = [("A", P.value([1, 2, 3, 4]))] if i % 2 == 0 else [("A", P.value([1, 2])), ("B", P.option("BS", dflt=P.value([5, 6])))]
+        m = P.map(d, its)
+        recs = []
+        for take in (0, 1, 2, 3):
+            P.evaluate(m, {"Z": take}, take=take)
+            recs.append({"op": len(P.ops) - 1, "body": body, "runs": take})
+        items.append((P.to_json(), {"lazy": recs, "no_model": True}))
+    return items
+
+
 def c06_programs(rng, tier) -> List[Item]:
     items = corpus_items("C06")
     items += c06_namespace_items(rng, sizes(tier, 15, 100))
@@ -2096,11 +2115,21 @@ def c06_programs(rng, tier) -> List[Item]:
     items += dataset_class_items(rng, sizes(tier, 40, 200))
     items += dispatch_domain_items(rng, sizes(tier, 20, 100))
     items += interface_items(rng, sizes(tier, 12, 60))
+    items += lazy_map_items(rng, sizes(tier, 8, 24))
     return items
 
 
 def c06_oracle(prog, meta, impl, model):
     out = []
+    for rec in meta.get("lazy", []):
+        a = impl[rec["op"]] if rec["op"] < len(impl) else None
+        if is_ok(a):
+            runs = sum(1 for c in a.get("calls", []) if c[0] == rec["body"])
+            if runs != rec["runs"]:
+                out.append(("a Map ran the bodies of pairs nobody asked for (or not those asked for)", rec["op"],
+                            {"asked_for": rec["runs"], "body_runs": runs}))
+    if meta.get("no_model"):
+        return out
     for i, (op, a) in enumerate(zip(prog["ops"], impl)):
         if isinstance(a, dict) and "r" not in a and a.get("calls"):
             out.append((f"the construction step `{op['op']}` ran user code", i, {"calls": a["calls"][:5]}))
@@ -2881,6 +2910,28 @@ def shared_upstream_items(rng, n) -> List[Item]:
     return items
 
 
+def plain_return_bind_items(rng, n) -> List[Item]:
+    """a `bind` continuation that returns a plain value (not an evaluatable) on one branch — a mistake in user code:
+    whatever the library makes of it, validate / keys / evaluate make the SAME of it (all fail, or all succeed), alone
+    and as a coalesce member.  (Oracle only: the model's continuations return expressions.)"""
+    items = []
+    for i in range(n):
+        P = Prog()
+        good, plain = P.option("X"), P.value(rng.choice([0, "p", None, [1]]))
+        b = P.bind(P.option("A"), [(1, good), (2, plain)], good if i % 2 else None)
+        P.binds[-1]["raw"] = [plain]
+        root = [lambda: b, lambda: P.coalesce([b, P.value("fallback")]), lambda: P.dataset([("v", b)], cache=P.new_cache("nocache"))][i % 3]()
+        agree = []
+        for o in [{"A": 1, "X": 5}, {"A": 2, "X": 5}, {"A": 2}, {"A": 1}, {"A": 3, "X": 1}]:
+            P.raw_op(op="reset")
+            b0 = len(P.ops)
+            for op in ("validate", "keys", "explain", "evaluate", "validate", "keys", "evaluate"):
+                P.op(op, root, sort_json(o))
+            agree.append({"v": b0, "k": b0 + 1, "x": b0 + 2, "e": b0 + 3, "wv": b0 + 4, "wk": b0 + 5, "we": b0 + 6})
+        items.append((P.to_json(), {"agree": agree, "root": root, "no_model": True, "classify_off": True, "same_status": True}))
+    return items
+
+
 def c10_programs(rng, tier) -> List[Item]:
     items = corpus_items("C10")
     items += dataset_default_items(rng, sizes(tier, 30, 200))
@@ -2895,6 +2946,7 @@ def c10_programs(rng, tier) -> List[Item]:
     items += container_reference_items(rng, sizes(tier, 32, 96))
     items += agreement_shapes_items(rng, sizes(tier, 32, 128))
     items += shared_upstream_items(rng, sizes(tier, 16, 64))
+    items += plain_return_bind_items(rng, sizes(tier, 12, 36))
     return items
 
 
